@@ -360,6 +360,10 @@ fn data_datum(ext: &str) -> Value {
         ("nested", dobj(vec![("k", darr(vec![dbool(true), dnum("-3")]))])),
         ("end", dnum("9007199254740993")),
         ("a b", dstr("x\ty")),
+        // keys made of letters only, but not of ASCII letters: not Lua names
+        ("caf\u{e9}", dnum("7")),
+        ("gr\u{f6}\u{df}e", dstr("\u{df}")),
+        ("m\u{b2}", dbool(true)),
     ])
 }
 /// nodes of the Lua expression denoting datum d (built directly, no text involved); returns the expression id
